@@ -33,7 +33,7 @@ LEVEL_NOTE = ("Trusted: Lean kernel (propext, Classical.choice, Quot.sound), the
 RULE = ("typed command sequences over the documented command set rendered canonically on track A (lengths 1..192 incl. non-divisors, dots 0..3, frames incl. "
         "1/255/256/65535, octaves, all 30 key signatures + modifier lists, Q0..9, q0..200, shuffle +-, decimal/hex/signed numbers) with the AST sent along so that "
         "the spec oracle computes the intended pitches, durations, key-on times and totals; bounded-exhaustive families (all lengths x dots, all key signatures x "
-        "letters x accidentals, Q x short durations, number spellings); multi-track / multi-line / conditional-block layouts; a malformed stream (mutated and random "
+        "letters x accidentals, Q x short durations, number spellings, numbers at the ends of int in every place the reader computes with a parsed number); multi-track / multi-line / conditional-block layouts; a malformed stream (mutated and random "
         "lines); direct Track API call sequences. non-trivial = uses a tie, slur, reverse rest, grace, echo, shuffle, key signature, drum mode, dots or frames, "
         "more than one track or line, or is malformed; distinct by request text")
 EXPLANATION = ("theorems over Model/TrackBuilder + Model/Lexer + Model/Mml; correspondence on the events (and references for mmlr) of every track, the error "
